@@ -48,6 +48,11 @@ var FedCorpus = []corpusCase{
 	{"D47-directive-on-outer-spread-of-nested-fragments", withPrio(fixedIn(`{ ...F0 } fragment F0 on Query { ...F1 @skip(if: true) } fragment F1 on Query { ...F2 } fragment F2 on Query { ...F3 } fragment F3 on Query { __typename }`), "B"), ""},
 	{"D48-join-under-narrowing-fragment-list", fixedIn(`{ pets { ... on Cat { ... on Cat { toys } } } }`), "elements the fragment does not apply to carry no id"},
 	{"D48-join-under-narrowing-fragment-object", fixedIn(`{ user(id: "u2") { pet { ... on Cat { ... on Cat { toys } } } } }`), ""},
+	{"D61-branch-beneath-skipped-fragment", FedInput{Spec: FixedFed2(), StoreSeed: 5, Query: `query ($v: Boolean!) { allUsers { ... on User @skip(if: $v) { photos { x1: url } } photos { likes } } }`, Vars: map[string]interface{}{"v": true}}, "the dependent step joined at allUsers/photos ignored the @skip of the fragment its field was found under"},
+	{"D61-branch-beneath-skipped-field", FedInput{Spec: FixedFed2(), StoreSeed: 5, Query: `query ($v: Boolean!) { allUsers { photos @skip(if: $v) { x1: url } photos { likes } } }`, Vars: map[string]interface{}{"v": true}}, ""},
+	{"D61-branch-beneath-included-fragment", FedInput{Spec: FixedFed2(), StoreSeed: 5, Query: `query ($v: Boolean!) { allUsers { ... @include(if: $v) { friends { photos { likes } } } friends { nick } } }`, Vars: map[string]interface{}{"v": false}}, ""},
+	{"abstract-boundary-two-conditions-nested", FedInput{Spec: FixedFed3(), StoreSeed: 5, Query: `{ pets { ... on Cat { ... { toys } } ... on Dog { ... { barks } } } }`}, "selections under two type conditions of one abstract field, same remote service, reached through nested fragments (seeded change S-C01-2)"},
+	{"abstract-boundary-two-conditions-named", FedInput{Spec: FixedFed3(), StoreSeed: 5, Query: `{ me { pet { ...C ...D } } } fragment C on Cat { ... on Cat { toys } } fragment D on Dog { ... on Dog { barks } }`}, ""},
 	{"D48-join-under-skipped-fragment", fixedIn(`{ me { friends { ... on User @skip(if: true) { ...F6 } } } } fragment F6 on User { nick }`), ""},
 	{"D49-mutation-duplicated-by-nested-fragments", fixedIn(`mutation { bump(id: "u1") { firstName } ... on Mutation { ... on Mutation { bump(id: "u1") { firstName } } } }`), "two root requests, the mutation runs twice"},
 	{"D49-root-field-twice-through-fragments", fixedIn(`{ ...F0 } fragment F0 on Query { ...F1 allPhotos { __typename } } fragment F1 on Query { allPhotos { url } }`), ""},
@@ -72,7 +77,7 @@ func (c01) Cases(tier string) int {
 }
 
 func (c01) Rule() string {
-	return "corpus of minimised past failures, then random federations (monolith schema partitioned over 2-4 services, fields homed at 1-2 services, optional priorities) x random data graphs (nulls, empty/long lists, cycles, ids with ':' '#' space, non-ASCII) x type-directed queries (aliases, inline/untyped/named fragments, @skip/@include literal and variable, __typename, node(id)); a case is non-trivial when the gateway made at least 2 service calls; distinct = distinct (federation, query) text; inputs in open known-finding regions are excluded from the random stream and exercised through their canonical replay"
+	return "L2.point: 10 point strings per case (rendered `key[:index][#id]` with ids containing the separators, and arbitrary strings over the separators) through executorGetPointData / isListElement and Pt.parsePoint / Pt.isListElement; corpus of minimised past failures, then random federations (monolith schema partitioned over 2-4 services, fields homed at 1-2 services, optional priorities) x random data graphs (nulls, empty/long lists, cycles, ids with ':' '#' space, non-ASCII) x type-directed queries (aliases, inline/untyped/named fragments, @skip/@include literal and variable, __typename, node(id)); a case is non-trivial when the gateway made at least 2 service calls; distinct = distinct (federation, query) text; inputs in open known-finding regions are excluded from the random stream and exercised through their canonical replay"
 }
 
 // GenFedInput draws a random federated input for case i.
@@ -92,6 +97,10 @@ func GenFedInput(c *Ctx, i int, forC string) (FedInput, map[string]bool) {
 		p = p[:1+r.Intn(len(p))]
 		if r.Intn(5) == 0 {
 			p = append([]string{"nowhere"}, p...)
+		}
+		if r.Intn(6) == 0 {
+			// a non-empty list that offers nothing: the built-in preferences (enclosing service, gateway) decide
+			p = []string{"nowhere"}
 		}
 		spec.Priorities = p
 	}
@@ -122,6 +131,14 @@ func (c01) Run(c *Ctx, i int) CaseResult {
 		id = fmt.Sprintf("gen:%d", i)
 	}
 	res := CaseResult{ID: id, Key: fmt.Sprint(in.Spec.SDLs, in.Spec.Priorities, in.Query, in.OddIDs)}
+	// L2: executorGetPointData / isListElement against Pt.parsePoint / Pt.isListElement (10 point strings per case)
+	for k := 0; k < 10; k++ {
+		if fails := PointCorr(c, c.Rand(i*100+k+88000000)); len(fails) > 0 {
+			res.Nontrivial = true
+			res.Fails = fails
+			return res
+		}
+	}
 	fc, err := RunFed(c, in, 5*time.Second)
 	if err != nil {
 		res.Fails = append(res.Fails, Failure{Channel: "harness", Classifier: "harness-error", What: err.Error(), Input: in})
